@@ -2,6 +2,7 @@ package pstree
 
 import (
 	"fmt"
+	"slices"
 
 	"github.com/creachadair/mds/stree"
 	"verif/elem"
@@ -499,6 +500,28 @@ func runCursorOn[T any](c CursorCase, o *vk.Obs, kit elem.Kit[T]) string {
 				cc.Inorder(func(T) bool { calls++; return calls < j })
 				if calls != j {
 					return r.errf("%s: Inorder made %d callbacks after being told to stop at %d", what, calls, j)
+				}
+				// the same cursor iterated again from inside its own iteration (at
+				// element j): both listings must be the subtree's keys (reading a
+				// cursor does not move it, so this is two reads of one cursor)
+				var outer, inner []Key
+				calls = 0
+				for x := range cc.Inorder {
+					outer = append(outer, r.tr.key(x))
+					if calls++; calls == j {
+						for y := range cc.Inorder {
+							inner = append(inner, r.tr.key(y))
+							if mv.A%3 == 2 && len(inner) >= 2 {
+								break
+							}
+						}
+					}
+				}
+				if !slices.Equal(outer, want) {
+					return r.errf("%s: Inorder with a second Inorder of the same cursor run inside its loop body (at element %d) yields %v, want %v", what, j, outer, want)
+				}
+				if wantIn := want[:len(inner)]; !slices.Equal(inner, wantIn) || (mv.A%3 != 2 && len(inner) != len(want)) {
+					return r.errf("%s: an Inorder started inside the loop body of the same cursor's Inorder yields %v, want %v", what, inner, want)
 				}
 			}
 			ret = cc
